@@ -832,6 +832,9 @@ func (ndb *nodeDB) getFirstVersion() (int64, error) {
 		ndb.resetFirstVersion(version)
 		return version, nil
 	}
+	if err := itr.Error(); err != nil {
+		return 0, err
+	}
 	// Find the first version
 	_, latestVersion, err := ndb.getLatestVersion()
 	if err != nil {
